@@ -102,6 +102,17 @@ Theorem C16_partial : forall N hist c V i,
 Proof. exact pop_contrib_is_edge_sum. Qed.
 Print Assumptions C16_partial.
 
+(* All Connectivity objects onto one target variable together: the input that unit i of population p receives in the
+   population circuit (sum of the vectors of all connections onto that variable, `t = t_in0 + t_in1 + ...`) is the sum
+   over ALL scalar edges of the explicit network into that unit — any number of populations, connections, any state
+   and history; `conn_ok` = well-formed + per-connection guard + state shapes, for every connection of the network. *)
+Theorem C16_input_partial : forall N hist p tv i,
+  Forall (conn_ok N hist) (combine (conns N) (snd (cur hist) ++ repeat [] (length (conns N)))) ->
+  (i < size_of N p)%nat ->
+  nth i (pop_input N hist p tv) 0 = exp_input 0 N hist p tv i.
+Proof. exact pop_input_is_exp_input. Qed.
+Print Assumptions C16_input_partial.
+
 (* The full-strength statement (every well-formed population circuit runs like its explicit network) is FALSE of the
    faithful model; it stays visible here and is refuted by computed witnesses that also fail on the real code
    (corpus/C16). *)
